@@ -207,6 +207,9 @@ def run(ctx):
     if ctx.thorough:
         plan += [("race:2-starts-empty+kill", 1), ("race:3-starts-empty", 0)]
     tear = "all" if ctx.thorough else "quick"
+    # torn writes at every byte offset only for the sequential crash
+    # scenarios; in races the kill positions are {1, L/2, L-1}
+    tear_of = lambda name: tear if name.startswith("crash:") else "quick"
     per = {}
     only = os.environ.get("VERIF_C19_ONLY")
     if only:
@@ -216,9 +219,9 @@ def run(ctx):
         t0 = time.time()
         cap = None
         if name == "race:3-starts-empty":
-            cap = 400000
+            cap = 150000
         a = vsched.explore(ctx, FACTORY, name, max_kills=kills,
-                           tear_mode=tear, max_states=cap)
+                           tear_mode=tear_of(name), max_states=cap)
         per[name] = {"states": a.counters["states"],
                      "wall_s": round(time.time() - t0, 1),
                      "transitions": a.counters["transitions"],
